@@ -97,10 +97,13 @@ Inductive op :=
 | Create (p : path)               (* open(p, "w"): create or truncate *)
 | Write (p : path) (c : content)  (* the file's bytes reach the disk *)
 | Unlink (p : path)
-| Rmdir (p : path).
+| Rmdir (p : path)
+| Replace (p : path) (c : content).
+(* [Replace p c]: the name p atomically becomes a regular file holding c — what os.replace(tmp, p) does to p when
+   tmp is a completely written file with the bytes c.  Never torn: the bytes were on disk under another name. *)
 
 Definition op_path (o : op) : path :=
-  match o with Mkdir p | Create p | Write p _ | Unlink p | Rmdir p => p end.
+  match o with Mkdir p | Create p | Write p _ | Unlink p | Rmdir p | Replace p _ => p end.
 
 Definition f_mkdir (c : option tree) : option (option tree) :=
   match c with None => Some (Some (TDir [])) | Some _ => None end.
@@ -112,6 +115,8 @@ Definition f_unlink (c : option tree) : option (option tree) :=
   match c with Some (TFile _) => Some None | _ => None end.
 Definition f_rmdir (c : option tree) : option (option tree) :=
   match c with Some (TDir []) => Some None | _ => None end.
+Definition f_replace (c' : content) (c : option tree) : option (option tree) :=
+  match c with None | Some (TFile _) => Some (Some (TFile c')) | Some (TDir _) => None end.
 
 (* strict: None = the operating system would refuse the call *)
 Definition apply (o : op) (t : fs) : option fs :=
@@ -121,6 +126,7 @@ Definition apply (o : op) (t : fs) : option fs :=
   | Write p c => alter p (f_write c) t
   | Unlink p => alter p f_unlink t
   | Rmdir p => alter p f_rmdir t
+  | Replace p c => alter p (f_replace c) t
   end.
 
 Fixpoint exec (ops : list op) (t : fs) : option fs :=
@@ -135,6 +141,13 @@ Fixpoint run_ops (ops : list op) (t : fs) : fs :=
   match ops with [] => t | o :: r => run_ops r (apply' o t) end.
 
 (* ---- composites expanded into primitives ---- *)
+
+(* os.replace(src, dst) / rename(2) of the regular file src, which holds the bytes c, onto dst (absent or a regular
+   file): dst takes the bytes and the name src disappears.  The kernel does both in one step; the model lists the two
+   halves, so the crash prefixes of a plan also contain the state between them (both names present), which the real
+   system cannot reach: theorems over all crash prefixes cover a superset of the real crash states.
+   (Proofs/FS.v, rename_ops_spec: on a tree where src holds c this is exactly the effect of rename.) *)
+Definition rename_ops (src dst : path) (c : content) : list op := [Replace dst c; Unlink src].
 
 (* os.makedirs(p, exist_ok=True) / Path.mkdir(parents=True, exist_ok=True): missing ancestors first *)
 Fixpoint mkdir_p_from (t : fs) (done todo : path) : list op :=
